@@ -121,7 +121,7 @@ def gen(rng, tier, idx):
     if rng.chance(2):
         return gen_known(rng)
     scn = workloads.session_scenario(rng, purpose="noninteractive")
-    scn["observe"] = True
+    scn["observe"] = True       # the final stack is read from the `stack` observer
     kind = rng.weighted([(50, "ok"), (25, "fail"), (25, "throw")])
     if scn.get("script") is not None and kind != "ok":
         toks = G.failing_op(rng) if kind == "fail" else G.throwing_op(rng)
